@@ -494,7 +494,7 @@ def check(pid, cfg, tier, seed, tmp, args, t0):
     elif new_diffs or broken:
         # something no longer checks; look for a failing input was already done above (spec on every case)
         body = dict(broken=[dict(name=n, detail=d) for n, d in broken],
-                    correspondence_differences=[dict(case=r['case'][:2000], model=r['model'][:2000]) for r in
+                    correspondence_differences=[dict(case=r['case'][:200000], model=r['model'][:20000]) for r in
                                                 sorted(new_diffs, key=lambda r: len(r['case']))[:5]],
                     n_differences=len(new_diffs),
                     searched='%d cases evaluated against the executable specification, none failed' % len(results))
